@@ -674,6 +674,8 @@ package core
 
 
 // ---------------------------------------------------------------------------
+// A closure that returns `error` must not return a nil *JApiError wrapped in the interface: Interactions.Each would stop at the
+// first interaction and adoptError would turn the typed nil back into "no error" (clause no-typed-nil-error).
 // validateCatalog (C05: "every response has a body", every request has a body; C03: an empty INFO is rejected). The
 // closures run once per interaction (Interactions.Each, the generated iteration, is not under contract): each returns
 // nil only if the interaction it was given satisfies the clause.
@@ -686,6 +688,7 @@ package core
 //@   ensures[C05,@response-has-body] imp(result == nil && typeis(v, *catalog.HTTPInteraction), forallp(j, at((*catalog.HTTPInteraction)(v.ref).Responses, j),
 //@       imp((*catalog.HTTPInteraction)(v.ref).Responses.off <= j && j < (*catalog.HTTPInteraction)(v.ref).Responses.off + len((*catalog.HTTPInteraction)(v.ref).Responses),
 //@           at((*catalog.HTTPInteraction)(v.ref).Responses, j).Body != nil)))
+//@   ensures[C05,@no-typed-nil-error] imp(result != nil, result.ref != 0)
 //@ func (*JApiCore).validateResponseBody$1 loop 1
 //@   invariant 0 <= (*catalog.HTTPInteraction)(v.ref).Responses.off && forallp(j, at((*catalog.HTTPInteraction)(v.ref).Responses, j), imp((*catalog.HTTPInteraction)(v.ref).Responses.off <= j && j < (*catalog.HTTPInteraction)(v.ref).Responses.off + rangeindex + 1, at((*catalog.HTTPInteraction)(v.ref).Responses, j).Body != nil))
 //@ func (*JApiCore).validateRequestBody$1(k, v)
@@ -694,6 +697,7 @@ package core
 //@   modifies nothing
 //@   ensures[C05,@request-has-body] imp(result == nil && typeis(v, *catalog.HTTPInteraction) && (*catalog.HTTPInteraction)(v.ref).Request != nil,
 //@       (*catalog.HTTPInteraction)(v.ref).Request.HTTPRequestBody != nil)
+//@   ensures[C05,@no-typed-nil-error] imp(result != nil, result.ref != 0)
 //@ func (*JApiCore).validateInfo(core)
 //@   property C03
 //@   attr assumesafe
